@@ -52,7 +52,7 @@ def from_builder(F, fn, v):
     if a[0] != 'call' or a[1].get('name') != 'attributes':
         return None
     m = a[2][0]
-    map_ok = any(x[0] == 'call' and x[1].get('name') == 'convert_ref' for x in prov.walk(m, limit=300))
+    map_ok = entries.from_convert_ref(F, m)
     if not map_ok:
         pp = as_param_path(m)
         if pp is not None and pp[1] == ():
@@ -140,6 +140,17 @@ def run(ctx):
         getters = {x[1].get('name') for x in prov.walk(v, limit=300) if x[0] == 'call' and (x[1].get('name') or '').startswith('get_')
                    and as_param_path(x[2][0]) == (2, ())}
         keeps = self_fields_read(v)
+        if not keeps and getters == {'get_' + fld}:
+            # `if let Some(v) = difficulty.get_x() { self.x = Custom(v) }`: the previous value is kept by not writing
+            cond_writes = []
+            for bi, si, s_ in diff.assigns():
+                pr = [e for e in s_['p'].get('proj', []) if isinstance(e, dict) and 'f' in e]
+                if s_['p']['l'] == 1 and pr and pr[0]['f'] == fld:
+                    guarded = any(c[0] == 'discr' and any(n[0] == 'call' and n[1].get('name') == 'get_' + fld for n in prov.walk(c[1], limit=30)) and lab == 'Some'
+                                  for c, lab in arms.guards_of(diff, bi))
+                    cond_writes.append(guarded)
+            if cond_writes and all(cond_writes):
+                keeps = {fld}
         ctx.require(getters == {'get_' + fld} and keeps == {fld}, 'C17-R3', 'difficulty:' + fld,
                     'builder.%s <- difficulty.get_%s() or the previous builder.%s' % (fld, fld, fld), diff.where(),
                     bad='BeatmapAttributesBuilder::difficulty fills `%s` from %s with fallback %s' % (fld, sorted(getters), sorted(keeps)))
@@ -209,8 +220,9 @@ def _has_param(v, k):
 def _mod_guarded(fn, bi):
     for c, lab in arms.bool_facts(fn, bi):
         for n in prov.walk(c, limit=60):
-            if n[0] == 'call' and n[1].get('name') in MOD_TESTS and 'GameMods' in (n[1].get('path') or ''):
-                return True
+            if n[0] == 'call' and (n[1].get('path') or '').startswith('model::mods::GameMods::') and \
+                    (n[1].get('name') in MOD_TESTS or (n[1].get('name') or '') not in ('clock_rate', 'ar', 'od', 'cs', 'hp')):
+                return True           # hr() / ez(), or any other accessor that classifies the mods (e.g. an HR/EZ enum)
     return False
 
 
